@@ -9,8 +9,8 @@ Cfgs == { [flavour |-> f, policy |-> p, limit |-> l, ttl |-> t, maxmem |-> 0, w 
             f \in Flavs, p \in Pols, l \in Limits, t \in Ttls }
 
 Alphabet == { [op |-> "call", k |-> "k1"], [op |-> "call", k |-> "k2"], [op |-> "call", k |-> "k3"],
-              [op |-> "inv_with", sel |-> {"k1"}], [op |-> "inv_with", sel |-> {"k1", "k2", "k3"}],
-              [op |-> "clear"], [op |-> "callx", k |-> "k1"] }
+              [op |-> "inv_with", sel |-> {"k1"}, naux |-> 1], [op |-> "inv_with", sel |-> {"k1", "k2", "k3"}, naux |-> 1],
+              [op |-> "clear", naux |-> 1], [op |-> "callx", k |-> "k1"] }
 
 Progs == UNION { [1..n -> Alphabet] : n \in 1..MaxOps }
 
